@@ -115,7 +115,7 @@ Definition spec_flat (sh : shape) (es : list (idx * Z)) (fill : Z) : list Z :=
 
 Inductive mk_case :=
 | MkCoords (sorted hasdup prune : bool) (sh : shape) (coords : list idx) (data : list Z) (fill : Z) (out : sarr)
-| MkIter (sh : shape) (items : list (idx * Z)) (fill : Z) (out : sarr)
+| MkIter (sh : shape) (items : list (idx * Z)) (fill : Z) (f : fmtZ) (out : sarr)
 | MkDense (d : dense Z) (fill : Z) (f : fmtZ) (out : sarr)
 | MkScipyCoo (sh : shape) (coords : list idx) (data : list Z) (f : fmtZ) (out : sarr)
 | MkScipyCs (axis : Z) (sh : shape) (data indices indptr : list Z) (passthrough : bool) (f : fmtZ) (out : sarr).
@@ -141,9 +141,10 @@ Definition judge_make (c : mk_case) : Z :=
     let valid := forallb (in_rangeb sh) coords && (length data =? length coords)%nat in
     judge_model_vs (coo_res (coo_make_checked Z.eqb Z.add s h p sh coords data fill)) valid o sh fill
                    (spec_flat sh (combine coords data) fill)
-  | MkIter sh items fill o =>
-    let valid := forallb (fun kv => in_rangeb sh (fst kv)) items in
-    judge_model_vs (coo_res (from_iter_pairs Z.eqb Z.add sh items fill)) valid o sh fill (spec_flat sh items fill)
+  | MkIter sh items fill f o =>
+    let valid := forallb (fun kv => in_rangeb sh (fst kv)) items && hop_okb sh f in
+    judge_model_vs (bind (from_iter_pairs Z.eqb Z.add sh items fill) (fun x => convert Z Z.eqb Z.add f (RCoo x)))
+                   valid o sh fill (spec_flat sh items fill)
   | MkDense d fill f o =>
     let valid := (length (d_flat d) =? length (all_indices (d_shape d)))%nat && hop_okb (d_shape d) f in
     judge_model_vs (convert Z Z.eqb Z.add f (RDense d fill)) valid o (d_shape d) fill (d_flat d)
